@@ -119,12 +119,8 @@ func sraRound(pkgs []*packages.Package, overlay map[string][]byte) (map[string][
 						}
 					}
 					// type texts with package qualifiers are only safe within the declaring file
-					if structFile[named.Obj().Name()] != f {
-						for _, ft := range sv.ftext {
-							if strings.Contains(ft, ".") {
-								okFields = false
-							}
-						}
+					if !portableFieldTypes(pkg, decl, structFile[named.Obj().Name()], f) {
+						okFields = false
 					}
 					if okFields && len(sv.fields) == st.NumFields() {
 						cands[v] = sv
@@ -672,15 +668,7 @@ func unboxRound(pkgs []*packages.Package, overlay map[string][]byte, counter *in
 					continue
 				}
 				crossFile := func(target *ast.File) bool {
-					if target == structFile[sname] {
-						return true
-					}
-					for _, ft := range ftext {
-						if strings.Contains(ft, ".") {
-							return false
-						}
-					}
-					return true
+					return portableFieldTypes(pkg, sdecl, structFile[sname], target)
 				}
 				if !crossFile(f) {
 					continue
@@ -973,4 +961,53 @@ func unparen(e ast.Expr) ast.Expr {
 		}
 		e = p.X
 	}
+}
+
+// portableFieldTypes: the field types of struct declaration decl, written in
+// file declFile, mean the same when copied as text into file target of the
+// same package: every package qualifier they use is imported by target under
+// the same name.
+func portableFieldTypes(pkg *packages.Package, decl *ast.StructType, declFile, target *ast.File) bool {
+	if declFile == target {
+		return true
+	}
+	importName := func(f *ast.File, path string) string {
+		for _, im := range f.Imports {
+			p := strings.Trim(im.Path.Value, "\"")
+			if p != path {
+				continue
+			}
+			if im.Name != nil {
+				return im.Name.Name
+			}
+			if ip := pkg.Imports[p]; ip != nil {
+				return ip.Name
+			}
+		}
+		return ""
+	}
+	ok := true
+	for _, fl := range decl.Fields.List {
+		ast.Inspect(fl.Type, func(n ast.Node) bool {
+			se, isSel := n.(*ast.SelectorExpr)
+			if !isSel {
+				return true
+			}
+			id, isID := se.X.(*ast.Ident)
+			if !isID {
+				ok = false
+				return false
+			}
+			pn, isPkg := pkg.TypesInfo.Uses[id].(*types.PkgName)
+			if !isPkg {
+				ok = false
+				return false
+			}
+			if n := importName(target, pn.Imported().Path()); n == "" || n == "_" || n == "." || n != id.Name {
+				ok = false
+			}
+			return false
+		})
+	}
+	return ok
 }
